@@ -11,6 +11,8 @@
 (***************************************************************************)
 EXTENDS SystemLife, Json, IOUtils
 
+NoResets(i) == {}
+NoNeeds(i) == {}
 Log == ndJsonDeserialize(IOEnv.TRACE_FILE)
 VARIABLE l
 Clause(name, c) == c \/ (PrintT(<<"REJECT", ToJson([l |-> l, clause |-> name, seq |-> Log[l].seq])>>) /\ FALSE)
